@@ -36,7 +36,7 @@ func randomSpec(n, m int, directed bool, seed uint64) gspec {
 }
 
 func genDirBig(g *vlib.G) {
-	seeds := vlib.Pick(g, 60, 400)
+	seeds := vlib.Pick(g, 150, 600)
 	for n := 6; n <= 8; n++ {
 		for _, m := range []int{n, n + n/2, 2 * n, 3 * n} {
 			for seed := 0; seed < seeds; seed++ {
@@ -84,7 +84,7 @@ func genDirBig(g *vlib.G) {
 }
 
 func genUndBig(g *vlib.G) {
-	seeds := vlib.Pick(g, 12, 150)
+	seeds := vlib.Pick(g, 30, 250)
 	for n := 7; n <= 8; n++ {
 		for _, m := range []int{n, 2 * n, 3 * n, 5 * n} {
 			for seed := 0; seed < seeds; seed++ {
